@@ -2,6 +2,7 @@
 (`DateTimeBase`, `DateConverter`, `TimeConverter`, `DateTimeConverter`). -/
 import XsdataModel.Props.C05
 import XsdataModel.Proofs.StrptimeL
+import XsdataModel.Proofs.StrptimeGenL
 import XsdataModel.Proofs.DatesFormatParse
 
 namespace Props.C05
@@ -9,146 +10,141 @@ open Py Xs.Conv Xs.Spec Xs.Dates
 
 def fmtDate : Str := ['%', 'Y', '-', '%', 'm', '-', '%', 'd']
 def fmtTime : Str := ['%', 'H', ':', '%', 'M', ':', '%', 'S']
+def fmtTimeF : Str := fmtTime ++ ['.', '%', 'f']
 def fmtDateTime : Str := fmtDate ++ 'T' :: fmtTime
+def fmtDateTimeF : Str := fmtDate ++ 'T' :: fmtTimeF
 
-/-- **Full strength** (for the format `%Y-%m-%d`): every `datetime.date` is written by
-`DateConverter.serialize` in a form that `deserialize` reads back with the same format. -/
-def DateFormatRoundTrip : Prop :=
-  ∀ (e : CEnv) (y m d : Nat), 1 ≤ y → y ≤ 9999 → validateDate y m d = true →
-    ∃ s, atomSerialize (.pyDate y m d) { format := some fmtDate } = .ok (s, none) ∧
-      atomDeserialize e .pyDate s { format := some fmtDate } = some (.pyDate y m d)
+/-- a real calendar date has a month in 1..12 and a day in 1..31 -/
+theorem valid_date_bounds (y m d : Nat) (hv : validateDate y m d = true) :
+    1 ≤ m ∧ m ≤ 12 ∧ 1 ≤ d ∧ d ≤ 31 := by
+  obtain ⟨b1, b2, b3, _⟩ := Proofs.DatesFormatParse.validateDate_bounds _ _ _ hv
+  refine ⟨by omega, by omega, by omega, ?_⟩
+  have hv' := hv
+  unfold validateDate at hv'
+  have hmm : ((m : Int).toNat) = m := by omega
+  simp only [hmm] at hv'
+  have hcases : m = 1 ∨ m = 2 ∨ m = 3 ∨ m = 4 ∨ m = 5 ∨ m = 6 ∨ m = 7 ∨ m = 8 ∨ m = 9 ∨ m = 10 ∨ m = 11 ∨
+      m = 12 := by omega
+  rcases hcases with h | h | h | h | h | h | h | h | h | h | h | h <;> subst h <;>
+    simp [monthlen, Tables.mdays] at hv' <;> (try split at hv') <;> omega
 
-/-- **The code violates it** before year 1000: glibc's `%Y` does not zero-pad, `strptime`'s
-`%Y` wants four digits (`date(999, 1, 2)` → `'999-01-02'` → ConverterError) -/
-theorem date_format_year_counterexample : ¬ DateFormatRoundTrip := by
-  intro h
-  obtain ⟨s, h1, h2⟩ := h asciiCEnv 999 1 2 (by decide) (by decide) (by decide)
-  have hs : atomSerialize (.pyDate ((999 : Nat) : Int) ((1 : Nat) : Int) ((2 : Nat) : Int)) { format := some fmtDate }
-      = .ok (['9', '9', '9', '-', '0', '1', '-', '0', '2'], none) := rfl
-  rw [hs] at h1
-  injection h1 with h1
-  injection h1 with h1 _
-  subst h1
-  revert h2
-  decide
-
-/-- **Provable part**: years 1000–9999 (the dates `strftime` writes with four digits) -/
-theorem date_format_rt_partial (e : CEnv) (y m d : Nat) (hy1 : 1000 ≤ y) (hy2 : y ≤ 9999)
+/-- **`datetime.date` with `%Y-%m-%d`, full strength** (was refuted by `date(999, 1, 2)` before
+`DateTimeBase.serialize` padded the year): every date of the proleptic calendar that Python
+can represent (years 1–9999) is written as `YYYY-MM-DD` and read back as the same date -/
+theorem date_format_rt (e : CEnv) (y m d : Nat) (hy1 : 1 ≤ y) (hy2 : y ≤ 9999)
     (hv : validateDate y m d = true) :
     atomSerialize (.pyDate y m d) { format := some fmtDate } =
-      .ok (natStr y ++ '-' :: (two m ++ '-' :: two d), none) ∧
-    atomDeserialize e .pyDate (natStr y ++ '-' :: (two m ++ '-' :: two d)) { format := some fmtDate } =
+      .ok (zpadInt (y : Int) 4 ++ '-' :: (two m ++ '-' :: two d), none) ∧
+    atomDeserialize e .pyDate (zpadInt (y : Int) 4 ++ '-' :: (two m ++ '-' :: two d)) { format := some fmtDate } =
       some (.pyDate y m d) := by
-  -- bounds on month and day from the calendar check
-  have hb : 1 ≤ m ∧ m ≤ 12 ∧ 1 ≤ d ∧ d ≤ 31 := by
-    obtain ⟨b1, b2, b3, _⟩ := Proofs.DatesFormatParse.validateDate_bounds _ _ _ hv
-    refine ⟨by omega, by omega, by omega, ?_⟩
-    unfold validateDate at hv
-    have hmm : ((m : Int).toNat) = m := by omega
-    simp only [hmm] at hv
-    have hcases : m = 1 ∨ m = 2 ∨ m = 3 ∨ m = 4 ∨ m = 5 ∨ m = 6 ∨ m = 7 ∨ m = 8 ∨ m = 9 ∨ m = 10 ∨ m = 11 ∨
-        m = 12 := by omega
-    rcases hcases with h | h | h | h | h | h | h | h | h | h | h | h <;> subst h <;>
-      simp [monthlen, Tables.mdays] at hv <;> (try split at hv) <;> omega
-  obtain ⟨hm1, hm2, hd1, hd2⟩ := hb
+  obtain ⟨hm1, hm2, hd1, hd2⟩ := valid_date_bounds y m d hv
   obtain ⟨hdash, _, _⟩ := dash_colon_T_not_space e.toEnv
+  obtain ⟨hyl, hyd, _⟩ := zpad_spec y 4 (by omega) (by omega)
   constructor
-  · have hm : zpadInt (m : Int) 2 = two m := zpadInt_two m (by omega)
-    have hd : zpadInt (d : Int) 2 = two d := zpadInt_two d (by omega)
-    have hyy : intStr (y : Int) = natStr y := by
-      unfold intStr; simp
-    simp [atomSerialize, dtSerialize, fmtDate, strftime, hm, hd, hyy]
+  · simp [atomSerialize, dtSerialize, fmtDate, strftime, zpadInt_two m (by omega), zpadInt_two d (by omega)]
   · have hc : compileFmt e.toEnv fmtDate false =
         .ok [.dir 'Y', .lit '-', .dir 'm', .lit '-', .dir 'd'] := by
       simp [fmtDate, compileFmt, numDirectives, hdash, Except.map]
     have hfirst : firstMatch e.toEnv [.dir 'Y', .lit '-', .dir 'm', .lit '-', .dir 'd']
-        (natStr y ++ '-' :: (two m ++ '-' :: two d)) {} =
-        some (((({} : TmF).set e.toEnv 'Y' (natStr y)).set e.toEnv 'm' (two m)).set e.toEnv 'd' (two d), []) := by
-      apply firstMatch_year e.toEnv (natStr y) (natStr_len4 y hy1 (by omega)) (natStr_spec y).1
+        (zpadInt (y : Int) 4 ++ '-' :: (two m ++ '-' :: two d)) {} =
+        some (((({} : TmF).set e.toEnv 'Y' (zpadInt (y : Int) 4)).set e.toEnv 'm' (two m)).set e.toEnv 'd' (two d), []) := by
+      apply firstMatch_year e.toEnv _ hyl hyd
       rw [firstMatch_lit]
       apply firstMatch_two e.toEnv 'm' (by decide) m (by omega) (by simp [twoOk]; omega)
       rw [firstMatch_lit]
       have := firstMatch_two e.toEnv 'd' (by decide) d (by omega) (by simp [twoOk]; omega) [] []
-        ((({} : TmF).set e.toEnv 'Y' (natStr y)).set e.toEnv 'm' (two m)) _ (firstMatch_nil _ _ _)
+        ((({} : TmF).set e.toEnv 'Y' (zpadInt (y : Int) 4)).set e.toEnv 'm' (two m)) _ (firstMatch_nil _ _ _)
       simpa using this
     have hstr := strptime_of_first e.toEnv _ fmtDate _ _ hc (by decide) hfirst
-    simp only [TmF.set, pyIntC_natStr, pyIntC_two e.toEnv m (by omega), pyIntC_two e.toEnv d (by omega)] at hstr
+    simp only [TmF.set, pyIntC_zpad e.toEnv y 4 (by omega) (by omega), pyIntC_two e.toEnv m (by omega),
+      pyIntC_two e.toEnv d (by omega)] at hstr
     simp only [atomDeserialize, dtParse, hstr]
     have hy0 : ¬ ((y : Int) < 1) := by omega
     simp [hy0, hv]
 
-example : validateDate (2024 : Nat) (2 : Nat) (29 : Nat) = true := by decide
+example : validateDate (999 : Nat) (2 : Nat) (28 : Nat) = true := by decide
 
-/-- **`datetime.time` with `%H:%M:%S`** (full strength for whole seconds): every time of day is
-written zero padded and read back as the same value -/
-theorem time_format_rt (e : CEnv) (h mi sec : Nat) (hh : h ≤ 23) (hmi : mi ≤ 59) (hs : sec ≤ 59) :
-    atomSerialize (.pyTime h mi sec 0) { format := some fmtTime } =
-      .ok (two h ++ ':' :: (two mi ++ ':' :: two sec), none) ∧
-    atomDeserialize e .pyTime (two h ++ ':' :: (two mi ++ ':' :: two sec)) { format := some fmtTime } =
-      some (.pyTime h mi sec 0) := by
+/-- the earlier witness, now read back -/
+theorem date_999_rt :
+    atomSerialize (.pyDate 999 1 2) { format := some fmtDate } = .ok (['0','9','9','9','-','0','1','-','0','2'], none) ∧
+    atomDeserialize asciiCEnv .pyDate ['0','9','9','9','-','0','1','-','0','2'] { format := some fmtDate } =
+      some (.pyDate 999 1 2) := by
+  have := date_format_rt asciiCEnv 999 1 2 (by decide) (by decide) (by decide)
+  exact this
+
+/-- **`datetime.time` with `%H:%M:%S.%f`, full strength**: hours, minutes, seconds and all six
+digits of the microseconds -/
+theorem time_format_rt (e : CEnv) (h mi sec us : Nat) (hh : h ≤ 23) (hmi : mi ≤ 59) (hs : sec ≤ 59)
+    (hus : us < 1000000) :
+    atomSerialize (.pyTime h mi sec us) { format := some fmtTimeF } =
+      .ok (two h ++ ':' :: (two mi ++ ':' :: (two sec ++ '.' :: zpadInt (us : Int) 6)), none) ∧
+    atomDeserialize e .pyTime (two h ++ ':' :: (two mi ++ ':' :: (two sec ++ '.' :: zpadInt (us : Int) 6)))
+      { format := some fmtTimeF } = some (.pyTime h mi sec us) := by
   obtain ⟨_, hcolon, _⟩ := dash_colon_T_not_space e.toEnv
+  have hdot : e.toEnv.isSpace '.' = false := by rw [isSpace_ascii e.toEnv _ (by decide)]; decide
+  obtain ⟨hul, hud, _⟩ := zpad_spec us 6 (by omega) (by omega)
   constructor
-  · simp [atomSerialize, dtSerialize, fmtTime, strftime, zpadInt_two h (by omega), zpadInt_two mi (by omega),
-      zpadInt_two sec (by omega)]
-  · have hc : compileFmt e.toEnv fmtTime false =
-        .ok [.dir 'H', .lit ':', .dir 'M', .lit ':', .dir 'S'] := by
-      simp [fmtTime, compileFmt, numDirectives, hcolon, Except.map]
-    have hfirst : firstMatch e.toEnv [.dir 'H', .lit ':', .dir 'M', .lit ':', .dir 'S']
-        (two h ++ ':' :: (two mi ++ ':' :: two sec)) {} =
-        some (((({} : TmF).set e.toEnv 'H' (two h)).set e.toEnv 'M' (two mi)).set e.toEnv 'S' (two sec), []) := by
+  · simp [atomSerialize, dtSerialize, fmtTimeF, fmtTime, strftime, zpadInt_two h (by omega),
+      zpadInt_two mi (by omega), zpadInt_two sec (by omega)]
+  · have hc : compileFmt e.toEnv fmtTimeF false =
+        .ok [.dir 'H', .lit ':', .dir 'M', .lit ':', .dir 'S', .lit '.', .dir 'f'] := by
+      simp [fmtTimeF, fmtTime, compileFmt, numDirectives, hcolon, hdot, Except.map]
+    have hfirst : firstMatch e.toEnv [.dir 'H', .lit ':', .dir 'M', .lit ':', .dir 'S', .lit '.', .dir 'f']
+        (two h ++ ':' :: (two mi ++ ':' :: (two sec ++ '.' :: zpadInt (us : Int) 6))) {} =
+        some ((((({} : TmF).set e.toEnv 'H' (two h)).set e.toEnv 'M' (two mi)).set e.toEnv 'S' (two sec)).set
+          e.toEnv 'f' (zpadInt (us : Int) 6), []) := by
       apply firstMatch_two e.toEnv 'H' (by decide) h (by omega) (by simp [twoOk]; omega)
       rw [firstMatch_lit]
       apply firstMatch_two e.toEnv 'M' (by decide) mi (by omega) (by simp [twoOk]; omega)
       rw [firstMatch_lit]
-      have := firstMatch_two e.toEnv 'S' (by decide) sec (by omega) (by simp [twoOk]; omega) [] []
-        ((({} : TmF).set e.toEnv 'H' (two h)).set e.toEnv 'M' (two mi)) _ (firstMatch_nil _ _ _)
+      apply firstMatch_two e.toEnv 'S' (by decide) sec (by omega) (by simp [twoOk]; omega)
+      rw [firstMatch_lit]
+      have := firstMatch_frac e.toEnv _ hul hud [] []
+        (((({} : TmF).set e.toEnv 'H' (two h)).set e.toEnv 'M' (two mi)).set e.toEnv 'S' (two sec)) _
+        (firstMatch_nil _ _ _)
       simpa using this
-    have hstr := strptime_of_first e.toEnv _ fmtTime _ _ hc (by decide) hfirst
+    have hstr := strptime_of_first e.toEnv _ fmtTimeF _ _ hc (by decide) hfirst
+    have hlj : ljust (zpadInt (us : Int) 6) 6 '0' = zpadInt (us : Int) 6 := by
+      unfold ljust; simp [hul]
     simp only [TmF.set, pyIntC_two e.toEnv h (by omega), pyIntC_two e.toEnv mi (by omega),
-      pyIntC_two e.toEnv sec (by omega)] at hstr
+      pyIntC_two e.toEnv sec (by omega), hlj, pyIntC_zpad e.toEnv us 6 (by omega) (by omega)] at hstr
     simp only [atomDeserialize, dtParse, hstr]
     have hs0 : ¬ ((sec : Int) > 59) := by omega
     have hvd : validateDate 1900 1 1 = true := by decide
     simp [hs0, hvd]
 
-example : (23 : Nat) ≤ 23 ∧ (59 : Nat) ≤ 59 := by decide
+example : (23 : Nat) ≤ 23 ∧ (59 : Nat) ≤ 59 ∧ (999999 : Nat) < 1000000 := by decide
 
-/-- **`datetime.datetime` with `%Y-%m-%dT%H:%M:%S`**, years 1000–9999, whole seconds
-(before year 1000 the same defect as for `date`: `date_format_year_counterexample`) -/
-theorem datetime_format_rt_partial (e : CEnv) (y m d h mi sec : Nat) (hy1 : 1000 ≤ y) (hy2 : y ≤ 9999)
-    (hv : validateDate y m d = true) (hh : h ≤ 23) (hmi : mi ≤ 59) (hs : sec ≤ 59) :
-    atomSerialize (.pyDateTime ⟨y, m, d, h, mi, sec, 0⟩) { format := some fmtDateTime } =
-      .ok (natStr y ++ '-' :: (two m ++ '-' :: (two d ++ 'T' :: (two h ++ ':' :: (two mi ++ ':' :: two sec)))), none) ∧
+/-- **`datetime.datetime` with `%Y-%m-%dT%H:%M:%S.%f`, full strength**: every naive datetime -/
+theorem datetime_format_rt (e : CEnv) (y m d h mi sec us : Nat) (hy1 : 1 ≤ y) (hy2 : y ≤ 9999)
+    (hv : validateDate y m d = true) (hh : h ≤ 23) (hmi : mi ≤ 59) (hs : sec ≤ 59) (hus : us < 1000000) :
+    atomSerialize (.pyDateTime ⟨y, m, d, h, mi, sec, us⟩) { format := some fmtDateTimeF } =
+      .ok (zpadInt (y : Int) 4 ++ '-' :: (two m ++ '-' :: (two d ++ 'T' :: (two h ++ ':' :: (two mi ++ ':' ::
+        (two sec ++ '.' :: zpadInt (us : Int) 6))))), none) ∧
     atomDeserialize e .pyDateTime
-        (natStr y ++ '-' :: (two m ++ '-' :: (two d ++ 'T' :: (two h ++ ':' :: (two mi ++ ':' :: two sec)))))
-        { format := some fmtDateTime } = some (.pyDateTime ⟨y, m, d, h, mi, sec, 0⟩) := by
-  have hb : 1 ≤ m ∧ m ≤ 12 ∧ 1 ≤ d ∧ d ≤ 31 := by
-    obtain ⟨b1, b2, b3, _⟩ := Proofs.DatesFormatParse.validateDate_bounds _ _ _ hv
-    refine ⟨by omega, by omega, by omega, ?_⟩
-    have hv' := hv
-    unfold validateDate at hv'
-    have hmm : ((m : Int).toNat) = m := by omega
-    simp only [hmm] at hv'
-    have hcases : m = 1 ∨ m = 2 ∨ m = 3 ∨ m = 4 ∨ m = 5 ∨ m = 6 ∨ m = 7 ∨ m = 8 ∨ m = 9 ∨ m = 10 ∨ m = 11 ∨
-        m = 12 := by omega
-    rcases hcases with h | h | h | h | h | h | h | h | h | h | h | h <;> subst h <;>
-      simp [monthlen, Tables.mdays] at hv' <;> (try split at hv') <;> omega
-  obtain ⟨hm1, hm2, hd1, hd2⟩ := hb
+        (zpadInt (y : Int) 4 ++ '-' :: (two m ++ '-' :: (two d ++ 'T' :: (two h ++ ':' :: (two mi ++ ':' ::
+          (two sec ++ '.' :: zpadInt (us : Int) 6))))))
+        { format := some fmtDateTimeF } = some (.pyDateTime ⟨y, m, d, h, mi, sec, us⟩) := by
+  obtain ⟨hm1, hm2, hd1, hd2⟩ := valid_date_bounds y m d hv
   obtain ⟨hdash, hcolon, hT⟩ := dash_colon_T_not_space e.toEnv
+  have hdot : e.toEnv.isSpace '.' = false := by rw [isSpace_ascii e.toEnv _ (by decide)]; decide
+  obtain ⟨hyl, hyd, _⟩ := zpad_spec y 4 (by omega) (by omega)
+  obtain ⟨hul, hud, _⟩ := zpad_spec us 6 (by omega) (by omega)
   constructor
-  · have hyy : intStr (y : Int) = natStr y := by unfold intStr; simp
-    simp [atomSerialize, dtSerialize, fmtDateTime, fmtDate, fmtTime, strftime, hyy, zpadInt_two m (by omega),
+  · simp [atomSerialize, dtSerialize, fmtDateTimeF, fmtDate, fmtTimeF, fmtTime, strftime, zpadInt_two m (by omega),
       zpadInt_two d (by omega), zpadInt_two h (by omega), zpadInt_two mi (by omega), zpadInt_two sec (by omega)]
-  · have hc : compileFmt e.toEnv fmtDateTime false =
+  · have hc : compileFmt e.toEnv fmtDateTimeF false =
         .ok [.dir 'Y', .lit '-', .dir 'm', .lit '-', .dir 'd', .lit 'T', .dir 'H', .lit ':', .dir 'M', .lit ':',
-          .dir 'S'] := by
-      simp [fmtDateTime, fmtDate, fmtTime, compileFmt, numDirectives, hdash, hcolon, hT, Except.map]
+          .dir 'S', .lit '.', .dir 'f'] := by
+      simp [fmtDateTimeF, fmtDate, fmtTimeF, fmtTime, compileFmt, numDirectives, hdash, hcolon, hT, hdot, Except.map]
     have hfirst : firstMatch e.toEnv [.dir 'Y', .lit '-', .dir 'm', .lit '-', .dir 'd', .lit 'T', .dir 'H', .lit ':',
-          .dir 'M', .lit ':', .dir 'S']
-        (natStr y ++ '-' :: (two m ++ '-' :: (two d ++ 'T' :: (two h ++ ':' :: (two mi ++ ':' :: two sec))))) {} =
-        some ((((((({} : TmF).set e.toEnv 'Y' (natStr y)).set e.toEnv 'm' (two m)).set e.toEnv 'd' (two d)).set
-          e.toEnv 'H' (two h)).set e.toEnv 'M' (two mi)).set e.toEnv 'S' (two sec), []) := by
-      apply firstMatch_year e.toEnv (natStr y) (natStr_len4 y hy1 (by omega)) (natStr_spec y).1
+          .dir 'M', .lit ':', .dir 'S', .lit '.', .dir 'f']
+        (zpadInt (y : Int) 4 ++ '-' :: (two m ++ '-' :: (two d ++ 'T' :: (two h ++ ':' :: (two mi ++ ':' ::
+          (two sec ++ '.' :: zpadInt (us : Int) 6)))))) {} =
+        some (((((((({} : TmF).set e.toEnv 'Y' (zpadInt (y : Int) 4)).set e.toEnv 'm' (two m)).set e.toEnv 'd' (two d)).set
+          e.toEnv 'H' (two h)).set e.toEnv 'M' (two mi)).set e.toEnv 'S' (two sec)).set e.toEnv 'f'
+          (zpadInt (us : Int) 6), []) := by
+      apply firstMatch_year e.toEnv _ hyl hyd
       rw [firstMatch_lit]
       apply firstMatch_two e.toEnv 'm' (by decide) m (by omega) (by simp [twoOk]; omega)
       rw [firstMatch_lit]
@@ -158,17 +154,157 @@ theorem datetime_format_rt_partial (e : CEnv) (y m d h mi sec : Nat) (hy1 : 1000
       rw [firstMatch_lit]
       apply firstMatch_two e.toEnv 'M' (by decide) mi (by omega) (by simp [twoOk]; omega)
       rw [firstMatch_lit]
-      have := firstMatch_two e.toEnv 'S' (by decide) sec (by omega) (by simp [twoOk]; omega) [] []
-        (((((({} : TmF).set e.toEnv 'Y' (natStr y)).set e.toEnv 'm' (two m)).set e.toEnv 'd' (two d)).set
-          e.toEnv 'H' (two h)).set e.toEnv 'M' (two mi)) _ (firstMatch_nil _ _ _)
+      apply firstMatch_two e.toEnv 'S' (by decide) sec (by omega) (by simp [twoOk]; omega)
+      rw [firstMatch_lit]
+      have := firstMatch_frac e.toEnv _ hul hud [] []
+        ((((((({} : TmF).set e.toEnv 'Y' (zpadInt (y : Int) 4)).set e.toEnv 'm' (two m)).set e.toEnv 'd' (two d)).set
+          e.toEnv 'H' (two h)).set e.toEnv 'M' (two mi)).set e.toEnv 'S' (two sec)) _ (firstMatch_nil _ _ _)
       simpa using this
-    have hstr := strptime_of_first e.toEnv _ fmtDateTime _ _ hc (by decide) hfirst
-    simp only [TmF.set, pyIntC_natStr, pyIntC_two e.toEnv m (by omega), pyIntC_two e.toEnv d (by omega),
-      pyIntC_two e.toEnv h (by omega), pyIntC_two e.toEnv mi (by omega), pyIntC_two e.toEnv sec (by omega)] at hstr
+    have hstr := strptime_of_first e.toEnv _ fmtDateTimeF _ _ hc (by decide) hfirst
+    have hlj : ljust (zpadInt (us : Int) 6) 6 '0' = zpadInt (us : Int) 6 := by
+      unfold ljust; simp [hul]
+    simp only [TmF.set, pyIntC_zpad e.toEnv y 4 (by omega) (by omega), pyIntC_two e.toEnv m (by omega),
+      pyIntC_two e.toEnv d (by omega), pyIntC_two e.toEnv h (by omega), pyIntC_two e.toEnv mi (by omega),
+      pyIntC_two e.toEnv sec (by omega), hlj, pyIntC_zpad e.toEnv us 6 (by omega) (by omega)] at hstr
     simp only [atomDeserialize, dtParse, hstr]
     have hy0 : ¬ ((y : Int) < 1) := by omega
     have hs0 : ¬ ((sec : Int) > 59) := by omega
     simp [hy0, hs0, hv]
+
+/-- **any format string** made of the numeric directives `%Y %m %d %H %M %S %f` (each at most once —
+`strptime` rejects a repeated directive), `%%` and literal characters other than white space, in any
+order and also without separators (`%Y%m%d%H%M%S%f`, `%d.%m.%Y`, `%H%%%M`): every naive datetime
+whose fields outside the format have the values `strptime` fills in (1900-01-01 00:00:00.0) is
+written with the format and read back as the same datetime. Nothing is assumed about the order of
+the directives: the proof shows that on zero-padded output the first match of `_strptime`'s regular
+expression, in backtracking order, takes every field whole. -/
+theorem datetime_any_format_rt (e : CEnv) (fmt : Str) (items : List FItem)
+    (hc : compileFmt e.toEnv fmt false = .ok items) (hws : ∀ c ∈ fmt, e.toEnv.isSpace c = false)
+    (hn : dirsNodup items = true)
+    (y m d h mi sec us : Nat) (hy1 : 1 ≤ y) (hy2 : y ≤ 9999)
+    (hv : validateDate y m d = true) (hh : h ≤ 23) (hmi : mi ≤ 59) (hs : sec ≤ 59) (hus : us < 1000000)
+    (dY : FItem.dir 'Y' ∉ items → y = 1900) (dm : FItem.dir 'm' ∉ items → m = 1)
+    (dd : FItem.dir 'd' ∉ items → d = 1) (dH : FItem.dir 'H' ∉ items → h = 0)
+    (dM : FItem.dir 'M' ∉ items → mi = 0) (dS : FItem.dir 'S' ∉ items → sec = 0)
+    (df : FItem.dir 'f' ∉ items → us = 0) :
+    ∃ s, atomSerialize (.pyDateTime ⟨y, m, d, h, mi, sec, us⟩) { format := some fmt } = .ok (s, none) ∧
+      atomDeserialize e .pyDateTime s { format := some fmt } = some (.pyDateTime ⟨y, m, d, h, mi, sec, us⟩) := by
+  obtain ⟨hm1, hm2, hd1, hd2⟩ := valid_date_bounds y m d hv
+  obtain ⟨hser, hok⟩ := compile_render e.toEnv ⟨y, m, d, h, mi, sec, us⟩ fmt.length fmt false items
+    (Nat.le_refl _) hws hc
+  refine ⟨render ⟨y, m, d, h, mi, sec, us⟩ items, by simp [atomSerialize, dtSerialize, hser], ?_⟩
+  have hfirst := firstMatch_render e.toEnv y m d h mi sec us hy2 hm1 hm2 hd1 hd2 hh hmi hs hus items hok {} []
+  rw [List.append_nil] at hfirst
+  have hstr := strptime_of_first e.toEnv _ fmt _ _ hc hn hfirst
+  obtain ⟨f1, f2, f3, f4, f5, f6, f7⟩ :=
+    setAll_fields e.toEnv y m d h mi sec us hy2 hm2 hd2 hh hmi hs hus items hok {}
+  have g1 : (setAll e.toEnv ⟨y, m, d, h, mi, sec, us⟩ {} items).year.getD 1900 = (y : Int) := by
+    rw [f1]; split
+    · rfl
+    · rename_i hx; rw [dY hx]; rfl
+  have g2 : (setAll e.toEnv ⟨y, m, d, h, mi, sec, us⟩ {} items).month.getD 1 = (m : Int) := by
+    rw [f2]; split
+    · rfl
+    · rename_i hx; rw [dm hx]; rfl
+  have g3 : (setAll e.toEnv ⟨y, m, d, h, mi, sec, us⟩ {} items).day.getD 1 = (d : Int) := by
+    rw [f3]; split
+    · rfl
+    · rename_i hx; rw [dd hx]; rfl
+  have g4 : (setAll e.toEnv ⟨y, m, d, h, mi, sec, us⟩ {} items).hour.getD 0 = (h : Int) := by
+    rw [f4]; split
+    · rfl
+    · rename_i hx; rw [dH hx]; rfl
+  have g5 : (setAll e.toEnv ⟨y, m, d, h, mi, sec, us⟩ {} items).minute.getD 0 = (mi : Int) := by
+    rw [f5]; split
+    · rfl
+    · rename_i hx; rw [dM hx]; rfl
+  have g6 : (setAll e.toEnv ⟨y, m, d, h, mi, sec, us⟩ {} items).second.getD 0 = (sec : Int) := by
+    rw [f6]; split
+    · rfl
+    · rename_i hx; rw [dS hx]; rfl
+  have g7 : (setAll e.toEnv ⟨y, m, d, h, mi, sec, us⟩ {} items).frac.getD 0 = (us : Int) := by
+    rw [f7]; split
+    · rfl
+    · rename_i hx; rw [df hx]; rfl
+  rw [g1, g2, g3, g4, g5, g6, g7] at hstr
+  simp only [atomDeserialize, dtParse, hstr]
+  have hy0 : ¬ ((y : Int) < 1) := by omega
+  have hs0 : ¬ ((sec : Int) > 59) := by omega
+  simp [hy0, hs0, hv]
+
+/-- the hypotheses are met, e.g. by the compact format `%d%m%Y%H%M%S%f`, a format with a literal
+percent sign, and one that has only a time -/
+example (e : CEnv) : ∀ fmt ∈ [['%','d','%','m','%','Y','%','H','%','M','%','S','%','f'],
+      ['%','H','%','%','%','M'], ['%','d','.','%','m','.','%','Y']],
+    ∃ items, compileFmt e.toEnv fmt false = .ok items ∧ dirsNodup items = true := by
+  have hdot : e.toEnv.isSpace '.' = false := by rw [isSpace_ascii e.toEnv _ (by decide)]; decide
+  intro fmt hf
+  simp only [List.mem_cons, List.mem_nil_iff, or_false] at hf
+  rcases hf with rfl | rfl | rfl
+  · exact ⟨[.dir 'd', .dir 'm', .dir 'Y', .dir 'H', .dir 'M', .dir 'S', .dir 'f'],
+      by simp [compileFmt, numDirectives, Except.map], by decide⟩
+  · exact ⟨[.dir 'H', .lit '%', .dir 'M'], by simp [compileFmt, numDirectives, Except.map], by decide⟩
+  · exact ⟨[.dir 'd', .lit '.', .dir 'm', .lit '.', .dir 'Y'],
+      by simp [compileFmt, numDirectives, Except.map, hdot], by decide⟩
+
+/-- the format most often used with a blank, `%Y-%m-%d %H:%M:%S`: the white-space run of the format
+(`\\s+` in `_strptime`'s regular expression) takes the written blank -/
+def fmtDateTimeSp : Str := fmtDate ++ ' ' :: fmtTime
+
+theorem datetime_space_format_rt (e : CEnv) (y m d h mi sec : Nat) (hy1 : 1 ≤ y) (hy2 : y ≤ 9999)
+    (hv : validateDate y m d = true) (hh : h ≤ 23) (hmi : mi ≤ 59) (hs : sec ≤ 59) :
+    atomSerialize (.pyDateTime ⟨y, m, d, h, mi, sec, 0⟩) { format := some fmtDateTimeSp } =
+      .ok (zpadInt (y : Int) 4 ++ '-' :: (two m ++ '-' :: (two d ++ ' ' :: (two h ++ ':' :: (two mi ++ ':' ::
+        two sec)))), none) ∧
+    atomDeserialize e .pyDateTime
+        (zpadInt (y : Int) 4 ++ '-' :: (two m ++ '-' :: (two d ++ ' ' :: (two h ++ ':' :: (two mi ++ ':' ::
+          two sec)))))
+        { format := some fmtDateTimeSp } = some (.pyDateTime ⟨y, m, d, h, mi, sec, 0⟩) := by
+  obtain ⟨hm1, hm2, hd1, hd2⟩ := valid_date_bounds y m d hv
+  obtain ⟨hdash, hcolon, _⟩ := dash_colon_T_not_space e.toEnv
+  have hsp : e.toEnv.isSpace ' ' = true := by rw [isSpace_ascii e.toEnv _ (by decide)]; decide
+  obtain ⟨hyl, hyd, _⟩ := zpad_spec y 4 (by omega) (by omega)
+  constructor
+  · simp [atomSerialize, dtSerialize, fmtDateTimeSp, fmtDate, fmtTime, strftime, zpadInt_two m (by omega),
+      zpadInt_two d (by omega), zpadInt_two h (by omega), zpadInt_two mi (by omega), zpadInt_two sec (by omega)]
+  · have hc : compileFmt e.toEnv fmtDateTimeSp false =
+        .ok [.dir 'Y', .lit '-', .dir 'm', .lit '-', .dir 'd', .ws, .dir 'H', .lit ':', .dir 'M', .lit ':',
+          .dir 'S'] := by
+      simp [fmtDateTimeSp, fmtDate, fmtTime, compileFmt, numDirectives, hdash, hcolon, hsp, Except.map]
+    have hfirst : firstMatch e.toEnv [.dir 'Y', .lit '-', .dir 'm', .lit '-', .dir 'd', .ws, .dir 'H', .lit ':',
+          .dir 'M', .lit ':', .dir 'S']
+        (zpadInt (y : Int) 4 ++ '-' :: (two m ++ '-' :: (two d ++ ' ' :: (two h ++ ':' :: (two mi ++ ':' ::
+          two sec))))) {} =
+        some ((((((({} : TmF).set e.toEnv 'Y' (zpadInt (y : Int) 4)).set e.toEnv 'm' (two m)).set e.toEnv 'd' (two d)).set
+          e.toEnv 'H' (two h)).set e.toEnv 'M' (two mi)).set e.toEnv 'S' (two sec), []) := by
+      apply firstMatch_year e.toEnv _ hyl hyd
+      rw [firstMatch_lit]
+      apply firstMatch_two e.toEnv 'm' (by decide) m (by omega) (by simp [twoOk]; omega)
+      rw [firstMatch_lit]
+      apply firstMatch_two e.toEnv 'd' (by decide) d (by omega) (by simp [twoOk]; omega)
+      apply firstMatch_ws e.toEnv [' '] (by simp) (by intro c hc; simp at hc; subst hc; exact hsp)
+      · intro c r' hcr
+        simp only [two, List.cons_append, List.cons.injEq] at hcr
+        rw [← hcr.1, isSpace_ascii e.toEnv _ (by rw [isAscii, digitChar_toNat _ (by omega)]; simp; omega)]
+        simp [isAsciiSpace, digitChar_toNat _ (show h / 10 < 10 by omega)]; omega
+      apply firstMatch_two e.toEnv 'H' (by decide) h (by omega) (by simp [twoOk]; omega)
+      rw [firstMatch_lit]
+      apply firstMatch_two e.toEnv 'M' (by decide) mi (by omega) (by simp [twoOk]; omega)
+      rw [firstMatch_lit]
+      have := firstMatch_two e.toEnv 'S' (by decide) sec (by omega) (by simp [twoOk]; omega) [] []
+        (((((({} : TmF).set e.toEnv 'Y' (zpadInt (y : Int) 4)).set e.toEnv 'm' (two m)).set e.toEnv 'd' (two d)).set
+          e.toEnv 'H' (two h)).set e.toEnv 'M' (two mi)) _ (firstMatch_nil _ _ _)
+      simpa using this
+    have hstr := strptime_of_first e.toEnv _ fmtDateTimeSp _ _ hc (by decide) hfirst
+    simp only [TmF.set, pyIntC_zpad e.toEnv y 4 (by omega) (by omega), pyIntC_two e.toEnv m (by omega),
+      pyIntC_two e.toEnv d (by omega), pyIntC_two e.toEnv h (by omega), pyIntC_two e.toEnv mi (by omega),
+      pyIntC_two e.toEnv sec (by omega)] at hstr
+    simp only [atomDeserialize, dtParse, hstr]
+    have hy0 : ¬ ((y : Int) < 1) := by omega
+    have hs0 : ¬ ((sec : Int) > 59) := by omega
+    simp [hy0, hs0, hv]
+
+example : validateDate 999 2 28 = true ∧ (23 : Nat) ≤ 23 := by decide
 
 /-- a missing `format` is a `ConverterError` in both directions, for all three types -/
 theorem datetime_needs_format (e : CEnv) (s : Str) (v : PyDT) :
